@@ -698,12 +698,30 @@ def corr_checksum(ctx, prop: str, n: int):
     return r
 
 
+def _ee2e():
+    """the composed ENCODER model (EncEndToEnd.v): imported lazily — props.ence2e imports props.e2e, which imports
+    props.c07, which imports this module"""
+    from props import ence2e as EE2E
+    for t in EE2E.TRUSTED:
+        if t not in TRUSTED:
+            TRUSTED.append(t)
+    for t in EE2E.ASSUMPTIONS:
+        if t not in ASSUMPTIONS:
+            ASSUMPTIONS.append(t)
+    return EE2E
+
+
+def gen(ctx):
+    _ee2e().gen(ctx)      # per-run theorems ENC_E2E_* (OblEncE2E.v): decode(encode(decode p)) = decode p through the wire
+
+
 def correspond(ctx):
     reports = [corr_encoders(ctx, "C06", ctx.n(350, 3000), ctx.n(40, 300)),
                corr_parsers(ctx, "C06", ctx.n(250, 2500), ctx.n(600, 6000))]
     reports += corr_primitives(ctx, "C06", ctx.n(400, 4000))
     reports.append(corr_framing(ctx, "C06", ctx.n(60, 400)))
     reports.append(corr_checksum(ctx, "C06", ctx.n(200, 2000)))
+    reports += _ee2e().correspond(ctx, prop="C06")
     return reports
 
 
@@ -1021,11 +1039,14 @@ def search(ctx):
                     pkts += obs[1]
             if pkts:
                 add(check_split(fmt, pkts))
+    out += _ee2e().search(ctx)
     return out
 
 
 def replay(ctx, data):
     w = data.get("witness", data)
+    if w.get("kind") == "ence2e":
+        return _ee2e().replay(ctx, data)
     r = None
     if w.get("kind") == "roundtrip":
         m = _msg_from(w["pgn"], bytes.fromhex(w["payload"]), w["src"], w["dst"], w["prio"])
